@@ -13,6 +13,7 @@
 #include <string>
 #include <thread>
 #include <vector>
+#include "stress_watchdog.h"
 #ifndef W_MUTEX
 #define W_MUTEX 0
 #endif
@@ -130,7 +131,8 @@ int main(int argc, char ** argv)
 	if(! g_out || ! parseScenario(argv[2])) return 2;
 	unsigned seed = (unsigned)std::strtoul(argv[4], 0, 10);
 	long n = std::atol(argv[5]);
-	for(long i = 0; i < n; ++i) execute(i, seed + (unsigned)i);
+	startStressWatchdog(g_out);
+	for(long i = 0; i < n; ++i) { execute(i, seed + (unsigned)i); ++g_stressProgress; }
 	std::fclose(g_out);
 	std::fprintf(stderr, "STATS {\"executions\":%ld,\"stuck\":0,\"exhausted\":0}\n", n);
 	return 0;
